@@ -196,6 +196,25 @@ class SymBool:
         return f"SymBool({self.t})"
 
 
+def _at_site(sites):
+    """Name of the first matching (function name, source substring) site among the calling frames, else ''."""
+    import linecache
+    import sys
+
+    f = sys._getframe(2)
+    depth = 0
+    while f is not None and depth < 12:
+        name = f.f_code.co_name
+        for fn, needle in sites:
+            if name == fn:
+                line = linecache.getline(f.f_code.co_filename, f.f_lineno)
+                if needle in line:
+                    return f"{fn}:{f.f_lineno}"
+        f = f.f_back
+        depth += 1
+    return ""
+
+
 def decide(t):
     """Fork point. Returns the branch taken on this path."""
     t = z3.simplify(t)
@@ -204,13 +223,26 @@ def decide(t):
     if z3.is_false(t):
         return False
     c = CTX
+    sites = c.config.get("assume_false_sites")
+    if sites and _at_site(sites):
+        # gate treated as an assumption by call site (function name + source text), recorded
+        c.assume(z3.Not(t), why="gate assumed not to fire at " + _at_site(sites))
+        return False
+    # a term already decided on this path keeps its truth value (no new fork, no solver call)
+    memo = c.config.setdefault("_decided", {})
+    tid = t.get_id()
+    if tid in memo:
+        return memo[tid][1]
     i = len(c.decisions)
     if i < len(c.prefix):
         d = c.prefix[i]
         c.decisions.append((d, False))
     else:
-        can_t = c.feasible(t)
-        can_f = c.feasible(z3.Not(t))
+        if c.config.get("prune", True):
+            can_t = c.feasible(t)
+            can_f = c.feasible(z3.Not(t))
+        else:
+            can_t = can_f = True
         if can_t and can_f:
             d = True
             c.decisions.append((True, True))
@@ -223,6 +255,7 @@ def decide(t):
         else:
             raise PathAbort("infeasible path condition")
     c.add_pc(t if d else z3.Not(t))
+    memo[tid] = (t, d)  # keep the term alive so that its id is not reused
     return d
 
 
